@@ -220,6 +220,28 @@ def install(eng):
         return P(st.env['errno'], 0)
     eng.ext_globals['__libc_single_threaded'] = lambda st, o: o.cells.__setitem__(0, (1, 1))
 
+    # ------------------------------------------------------------ libstdc++.so pieces used by unordered_map / list / map
+    @model('_ZNKSt8__detail20_Prime_rehash_policy14_M_need_rehashEmmm')
+    def m_need_rehash(st, a):
+        this, n_bkt, n_elt, n_ins = a[0], eng.concretize(st, a[1], 'bucket count'), eng.concretize(st, a[2], 'element count'), eng.concretize(st, a[3], 'insert count')
+        # any growth policy is a valid one: grow when the load factor would exceed 1
+        if n_elt + n_ins > n_bkt:
+            nb = max(2 * n_bkt + 1, n_elt + n_ins, 13)
+            eng.store(st, P(this.obj, this.off + 8), 8, nb)
+            return Agg([1, nb])
+        return Agg([0, 0])
+    @model('_ZNSt8__detail15_List_node_base7_M_hookEPS0_')
+    def m_list_hook(st, a):
+        node, pos = a[0], a[1]          # insert node before pos: node->next = pos; node->prev = pos->prev; pos->prev->next = node; pos->prev = node
+        prev = eng.load(st, P(pos.obj, pos.off + 8), 8)
+        eng.store(st, node, 8, pos); eng.store(st, P(node.obj, node.off + 8), 8, prev)
+        eng.store(st, prev, 8, node); eng.store(st, P(pos.obj, pos.off + 8), 8, node)
+    @model('_ZNSt8__detail15_List_node_base9_M_unhookEv')
+    def m_list_unhook(st, a):
+        node = a[0]
+        nxt = eng.load(st, node, 8); prev = eng.load(st, P(node.obj, node.off + 8), 8)
+        eng.store(st, prev, 8, nxt); eng.store(st, P(nxt.obj, nxt.off + 8), 8, prev)
+
     # ------------------------------------------------------------ libm (IEEE semantics via z3 FP / python floats)
     def fm(base, bits=64):
         return lambda st, a: eng.fmath(st, base, bits, a)
